@@ -7,7 +7,18 @@
    [Z]; every loop condition, index, slice bound, increment and initial value is the definition
    the translator regenerates from the Go source into Gen/EditIdx.v.  An index or slice bound
    out of range is the explicit result [EPanic]; running out of the loop fuel is [EOutOfFuel]
-   (Slice/EditProofs.v proves that neither happens). *)
+   (Slice/EditProofs.v proves that neither happens).
+
+   Capacity.  Go checks an index against len(s) but the bounds of a slice expression s[lo:hi]
+   against cap(s), and the result may expose elements of the backing array beyond len(s).  The
+   inputs therefore come with the contents of their spare capacity: [lx] / [rx] are the elements
+   of the backing arrays of lhs / rhs after their last element (cap(lhs) = len(lhs) + len(lx));
+   indexing uses lhs / rhs, slicing uses lhs ++ lx / rhs ++ rx ([zslice_cap]).  EditProofs.v proves
+   the result does not depend on lx, rx (no slice ever reaches into the spare capacity).
+
+   The Op constant of every appended Edit literal is the value the translator reads off the
+   literal (Gen: es_*_op), decoded with [op_of_code]; a value that is none of the four constants
+   gives [EPanic] (no such edit exists in the model; proved not to happen). *)
 From Coq Require Import ZArith List Bool.
 Import ListNotations.
 From Mds Require Import Gen.EditIdx.
@@ -23,6 +34,14 @@ Definition op_code (o : op) : Z :=
   | Copy => op_copy_code
   | Replace => op_replace_code
   end.
+
+(* the EditOp with a given byte value, if any *)
+Definition op_of_code (c : Z) : option op :=
+  if c =? op_drop_code then Some Drop
+  else if c =? op_emit_code then Some Emit
+  else if c =? op_copy_code then Some Copy
+  else if c =? op_replace_code then Some Replace
+  else None.
 
 Definition op_eqb (a b : op) : bool :=
   match a, b with
@@ -52,13 +71,18 @@ Section EditLoop.
   Definition zth {A} (s : list A) (k : Z) : option A :=
     if k <? 0 then None else nth_error s (Z.to_nat k).
 
-  (* s[lo:hi]: None = slice bounds out of range.  (Go checks hi against cap(s); the model is
-     stricter and checks against len(s), so "no panic" here also says that no element beyond
-     the length of an input is ever exposed.) *)
+  (* s[lo:hi] on a slice without spare capacity (cap(s) = len(s)): None = slice bounds out of
+     range *)
   Definition zslice {A} (s : list A) (lo hi : Z) : option (list A) :=
     if (0 <=? lo) && (lo <=? hi) && (hi <=? zlen s)
     then Some (firstn (Z.to_nat (hi - lo)) (skipn (Z.to_nat lo) s))
     else None.
+
+  (* s[lo:hi] on a slice whose backing array continues with [extra] after s's last element
+     (cap(s) = len(s) + len(extra)): Go panics iff not 0 <= lo <= hi <= cap(s), and otherwise
+     returns the array elements lo..hi-1 -- beyond len(s) these are elements of [extra]. *)
+  Definition zslice_cap {A} (s extra : list A) (lo hi : Z) : option (list A) :=
+    zslice (s ++ extra) lo hi.
 
   (* for !eq(s[pos], lcs[i]) { pos++ }   -- the two re-matching loops share this shape; the
      condition, the two index expressions and the increment are passed in from Gen. *)
@@ -101,22 +125,32 @@ Section EditLoop.
   Definition of_opt {A} (o : option A) : eres A :=
     match o with Some a => EOk a | None => EPanic end.
 
+  (* an Edit[T]{Op: c, ...} literal with the Op constant c read off the source *)
+  Definition lit (c : Z) (x y : list T) : eres edit :=
+    match op_of_code c with Some o => EOk (mkEdit o x y) | None => EPanic end.
+
+  (* contents of the spare capacity of lhs and rhs (see the header) *)
+  Variables lx rx : list T.
+
   (* the if / else-if / if block that records what lies before the next match *)
   Definition gap_edits (lhs rhs : list T) (lpos lend rpos rend : Z) (out : list edit)
     : eres (list edit) :=
     ebind
       (if es_fuse_cond lpos lend rpos rend then
-         ebind (of_opt (zslice lhs (es_fuse_x_lo lpos lend) (es_fuse_x_hi lpos lend))) (fun x =>
-         ebind (of_opt (zslice rhs (es_fuse_y_lo rpos rend) (es_fuse_y_hi rpos rend))) (fun y =>
-         EOk (out ++ [mkEdit Replace x y], es_fuse_rpos rend)))
+         ebind (of_opt (zslice_cap lhs lx (es_fuse_x_lo lpos lend) (es_fuse_x_hi lpos lend))) (fun x =>
+         ebind (of_opt (zslice_cap rhs rx (es_fuse_y_lo rpos rend) (es_fuse_y_hi rpos rend))) (fun y =>
+         ebind (lit es_fuse_op x y) (fun e =>
+         EOk (out ++ [e], es_fuse_rpos rend))))
        else if es_drop_cond lpos lend then
-         ebind (of_opt (zslice lhs (es_drop_x_lo lpos lend) (es_drop_x_hi lpos lend))) (fun x =>
-         EOk (out ++ [mkEdit Drop x []], rpos))
+         ebind (of_opt (zslice_cap lhs lx (es_drop_x_lo lpos lend) (es_drop_x_hi lpos lend))) (fun x =>
+         ebind (lit es_drop_op x []) (fun e =>
+         EOk (out ++ [e], rpos)))
        else EOk (out, rpos))
       (fun '(out1, rpos1) =>
        if es_copy_cond rpos1 rend then
-         ebind (of_opt (zslice rhs (es_copy_y_lo rpos1 rend) (es_copy_y_hi rpos1 rend))) (fun y =>
-         EOk (out1 ++ [mkEdit Copy [] y]))
+         ebind (of_opt (zslice_cap rhs rx (es_copy_y_lo rpos1 rend) (es_copy_y_hi rpos1 rend))) (fun y =>
+         ebind (lit es_copy_op [] y) (fun e =>
+         EOk (out1 ++ [e])))
        else EOk out1).
 
   (* one iteration of the outer loop body: (lpos, rpos, i, out) -> (lpos, rpos, i, out) *)
@@ -130,9 +164,9 @@ Section EditLoop.
     let lpos2 := es_lpos_sync lend in
     let rpos2 := es_rpos_sync rend in
     ebind (run_ext (S (length lcs)) lhs rhs (zlen lcs) i lpos2 rpos2 es_m_init) (fun m =>
-    ebind (of_opt (zslice lhs (es_emit_x_lo lpos2 m) (es_emit_x_hi lpos2 m))) (fun x =>
-    EOk (es_lpos_step lpos2 m, es_rpos_step rpos2 m, es_i_step i m,
-         out2 ++ [mkEdit Emit x []])))))).
+    ebind (of_opt (zslice_cap lhs lx (es_emit_x_lo lpos2 m) (es_emit_x_hi lpos2 m))) (fun x =>
+    ebind (lit es_emit_op x []) (fun e =>
+    EOk (es_lpos_step lpos2 m, es_rpos_step rpos2 m, es_i_step i m, out2 ++ [e]))))))).
 
   (* for i < len(lcs) { body } *)
   Fixpoint outer (fuel : nat) (lhs rhs lcs : list T) (lpos rpos i : Z) (out : list edit)
@@ -155,17 +189,20 @@ Section EditLoop.
     let nr := zlen rhs in
     ebind
       (if es_tail_fuse_cond nl lpos nr rpos then
-         ebind (of_opt (zslice lhs (es_tail_fuse_x_lo lpos) (es_tail_fuse_x_hi nl))) (fun x =>
-         ebind (of_opt (zslice rhs (es_tail_fuse_y_lo rpos) (es_tail_fuse_y_hi nr))) (fun y =>
-         EOk (out ++ [mkEdit Replace x y], es_tail_fuse_rpos nr)))
+         ebind (of_opt (zslice_cap lhs lx (es_tail_fuse_x_lo lpos) (es_tail_fuse_x_hi nl))) (fun x =>
+         ebind (of_opt (zslice_cap rhs rx (es_tail_fuse_y_lo rpos) (es_tail_fuse_y_hi nr))) (fun y =>
+         ebind (lit es_tail_fuse_op x y) (fun e =>
+         EOk (out ++ [e], es_tail_fuse_rpos nr))))
        else if es_tail_drop_cond nl lpos then
-         ebind (of_opt (zslice lhs (es_tail_drop_x_lo lpos) (es_tail_drop_x_hi nl))) (fun x =>
-         EOk (out ++ [mkEdit Drop x []], rpos))
+         ebind (of_opt (zslice_cap lhs lx (es_tail_drop_x_lo lpos) (es_tail_drop_x_hi nl))) (fun x =>
+         ebind (lit es_tail_drop_op x []) (fun e =>
+         EOk (out ++ [e], rpos)))
        else EOk (out, rpos))
       (fun '(out1, rpos1) =>
        if es_tail_copy_cond nr rpos1 then
-         ebind (of_opt (zslice rhs (es_tail_copy_y_lo rpos1) (es_tail_copy_y_hi nr))) (fun y =>
-         EOk (out1 ++ [mkEdit Copy [] y]))
+         ebind (of_opt (zslice_cap rhs rx (es_tail_copy_y_lo rpos1) (es_tail_copy_y_hi nr))) (fun y =>
+         ebind (lit es_tail_copy_op [] y) (fun e =>
+         EOk (out1 ++ [e])))
        else EOk out1).
 
   (* if len(out) == 1 && out[0].Op == OpEmit { return nil } ; return out *)
@@ -175,7 +212,7 @@ Section EditLoop.
     | None => if es_elide_cond (zlen out) op_emit_code then EPanic else EOk out
     end.
 
-  (* editScriptFunc after [lcs := LCSFunc(lhs, rhs, eq)] *)
+  (* editScriptFunc after [lcs := LCSFunc(...)] *)
   Definition edit_script_of_lcs (lcs lhs rhs : list T) : eres (list edit) :=
     ebind (outer (S (length lcs)) lhs rhs lcs es_lpos_init es_rpos_init es_i_init [])
           (fun '(lpos, rpos, out) =>
@@ -190,5 +227,6 @@ Arguments Y {T} e.
 Arguments zlen {A} s.
 Arguments zth {A} s k.
 Arguments zslice {A} s lo hi.
+Arguments zslice_cap {A} s extra lo hi.
 Arguments ebind {A B} r k.
 Arguments of_opt {A} o.
